@@ -451,6 +451,30 @@ def accepts(e, obs):
     return obs in acc
 
 
+CRASH = ("panic", "hang", "abort", "parse", "badjson", "sig", "empty")
+
+
+def verdict(e, obs):
+    """'ok' | 'property' (an answer the property statement fixes is wrong, or a crash) | 'code' (only an
+    answer on which the statement is silent differs from what the code is known to compute)"""
+    if obs in CRASH:
+        return "property"
+    if e.get("vector") is not None:
+        es = e["vector"]
+        if obs == "err":
+            if any("err" in x["accept"] or NOCRASH in x["accept"] for x in es):
+                return "ok"
+            return "property" if all(x["strength"] == "property" for x in es) else "code"
+        if not obs.startswith("ok V["):
+            return "property"
+        els = split_vec(obs[3:])
+        if len(els) != len(es):
+            return "property"
+        vs = [verdict(x, "ok " + el) for x, el in zip(es, els)]
+        return "property" if "property" in vs else "code" if "code" in vs else "ok"
+    return "ok" if accepts(e, obs) else e["strength"]
+
+
 def definite(e):
     """the single outcome the oracle demands, if it demands exactly one (for reports)"""
     if e.get("vector") is not None:
@@ -642,11 +666,8 @@ def evaluate(ctx, cases, runner, rem_pending):
                 stats["rem_zero_exact_pending_fix_by_C06"] += 1
                 continue
             stats["rem_zero_exact_raised" if rz == "exact" else "rem_zero_float"] += 1
-        good = accepts(e, obs)
-        if not good and e["strength"] == "property":
-            bad.append(("property", c, r))
-            continue
-        if obs in ("panic", "hang", "abort", "parse", "badjson"):
+        v = verdict(e, obs)
+        if v == "property":
             bad.append(("property", c, r))
             continue
         if is_delegated(c):
@@ -654,7 +675,7 @@ def evaluate(ctx, cases, runner, rem_pending):
             if m is not None and m != "deleg":
                 bad.append(("correspondence", c, r))
             continue
-        if not good:
+        if v == "code":
             bad.append(("correspondence", c, r))
             continue
         if m is not None:
